@@ -4,9 +4,13 @@ seeded change into its meta.json."""
 import csv, json, os, re
 rows = list(csv.DictReader(open("/verif/seeded/MATRIX.tsv"), delimiter="\t"))
 blind = {}
-if os.path.exists("/verif/seeded/MATRIX-blind.tsv"):
-    for r in csv.DictReader(open("/verif/seeded/MATRIX-blind.tsv"), delimiter="\t"):
-        blind[(r["change"], r["property"])] = r["exit"]
+blind_counts = []
+for fn, label in [("MATRIX-blind.tsv", "round-2 changes against revision 6f8271e"), ("MATRIX-blind3.tsv", "round-3 changes against revision d9cebbd")]:
+    if os.path.exists("/verif/seeded/" + fn):
+        rs = list(csv.DictReader(open("/verif/seeded/" + fn), delimiter="\t"))
+        for r in rs:
+            blind[(r["change"], r["property"])] = r["exit"]
+        blind_counts.append(f"{label}: {sum(1 for r in rs if r['exit'] == '1')} of {len(rs)}")
 out = ["| change | what it is | property | blind | quick | first report |", "|---|---|---|---|---|---|"]
 subj = {}
 import subprocess
@@ -31,7 +35,7 @@ for r in rows:
     out.append(f"| {name} | {what.replace('|','/')} | {r['property']} | {bl} | {'VIOLATION' if ok else 'exit ' + r['exit']} | {first} |")
 out.append("")
 out.append(f"{det} of {len(rows)} (change, property) pairs are reported by the quick tier of the current machinery; "
-           f"blind (revision 6f8271e, round-2 changes only): {sum(1 for v in blind.values() if v == '1')} of {len(blind)}.")
+           f"blind (the machinery as it was before the changes of that round were looked at) - " + "; ".join(blind_counts) + ".")
 if os.path.exists("/verif/seeded/MATRIX-extra.tsv"):
     out.append("")
     out.append("Changes the quick check of their own property does not report, and where they are reported instead:")
